@@ -13,9 +13,9 @@ use bump_scope::alloc::{AllocError, Allocator};
 use bump_scope::settings::BumpSettings;
 use bump_scope::{BumpPool, BumpPoolGuard};
 
-use crate::arena::{Rec, pick};
-use crate::model::{check_pattern, write_pattern};
-use crate::runner::{CaseReport, CaseResult, Engine, Failure, panic_message};
+use bsv_core::common::{Rec, pick};
+use bsv_core::model::{check_pattern, write_pattern};
+use bsv_core::runner::{CaseReport, CaseResult, Engine, Failure, panic_message};
 
 #[derive(Default)]
 struct Ledger {
@@ -247,7 +247,7 @@ fn run<const UP: bool>(recs: &[&[u8]], hdr: &[u8], want_desc: bool) -> Out {
                     l.push_str(&format!("[round {round}] thread {t}: {act:?}\n"));
                 }
                 out.steps += 1;
-                out.hash ^= crate::runner::fnv(format!("{t}{act:?}").as_bytes());
+                out.hash ^= bsv_core::runner::fnv(format!("{t}{act:?}").as_bytes());
                 out.hash = out.hash.wrapping_mul(0x100000001b3);
                 let grants_before = ledger.lock().unwrap().grants;
                 let idle_before = idle.len();
